@@ -6,26 +6,10 @@
      no goroutine is still committed to an enqueue for it, nothing more is ever enqueued for
      that id (late frames are discarded). *)
 From Coq Require Import ZArith List Bool Lia.
-From Verif Require Import Base.Wrap Gen.GenConsts Gen.GenFrame Model.RelayItems Spec.WireOk
+From Verif Require Import Base.Wrap Gen.GenConsts Gen.GenFrame Model.RelayItems Model.RelayCalm Spec.WireOk
   Proofs.RelayAssocP Proofs.RelayCoreP Proofs.RelayInv9P Proofs.RelayTimerP Proofs.RelaySilentP.
 Import ListNotations.
 Local Open Scope Z_scope.
-
-(* the grammar symbol of a frame (None: not a response-direction call frame) *)
-Definition kind_of (f : frame) : option kind :=
-  if f_mt f =? c_messageTypeCallRes then Some (Res (hasMoreFragments (f_flags f)))
-  else if f_mt f =? c_messageTypeCallResContinue then Some (Cont (hasMoreFragments (f_flags f)))
-  else if f_mt f =? c_messageTypeError then Some Err
-  else None.
-
-(* frames enqueued on connection k for id, oldest first (the log is newest first) *)
-Fixpoint wire_of (k id : Z) (log : list (Z * frame)) : list kind :=
-  match log with
-  | [] => []
-  | (k', f) :: r =>
-      wire_of k id r ++
-      (if (k' =? k) && (f_id f =? id) then match kind_of f with Some x => [x] | None => [] end else [])
-  end.
 
 (* ---------------------------------------------------------------- the refutation *)
 
